@@ -758,8 +758,11 @@ static void build_expr(WorkList *list, ASTNode *expr, Environment *env) {
                 }
             }
             
-            /* Check if it's a function identifier */
+            /* Check if it's a function identifier (a variable of that name in scope hides the function) */
             Function *func_def = env_get_function(env, expr->as.identifier);
+            if (func_def && env_get_var_visible_at(env, expr->as.identifier, expr->line, expr->column)) {
+                func_def = NULL;
+            }
             if (func_def && !func_def->is_extern && func_def->body != NULL) {
                 emit_formatted(list, "nl_%s", expr->as.identifier);
             } else {
@@ -2006,7 +2009,13 @@ static void build_expr(WorkList *list, ASTNode *expr, Environment *env) {
                     snprintf(buf, sizeof(buf), "nl_%s", func_name);
                     mapped_name = buf;
                 }
-                mapped_name = map_function_name(mapped_name, env);
+                /* A function-typed variable in scope hides a function of the same name: the call goes
+                 * through the variable (its C name is the plain identifier) */
+                Symbol *callee_var = env_get_var_visible_at(env, func_name, expr->line, expr->column);
+                bool through_variable = callee_var && callee_var->type == TYPE_FUNCTION;
+                if (!through_variable) {
+                    mapped_name = map_function_name(mapped_name, env);
+                }
 
                 /* ARC: Check if function returns opaque type requiring manual free
                  * Be very defensive - only apply to extern functions we can safely lookup */
@@ -2722,6 +2731,7 @@ static void build_stmt(WorkList *list, ScopeStack *scopes, ASTNode *stmt, int in
 
             /* Push new scope for this block */
             scope_stack_push(scopes);
+            int block_scope_start = env->symbol_count;
 
             for (int i = 0; i < stmt->as.block.count; i++) {
                 build_stmt(list, scopes, stmt->as.block.statements[i], indent + 1, env, fn_registry);
@@ -2732,6 +2742,9 @@ static void build_stmt(WorkList *list, ScopeStack *scopes, ASTNode *stmt, int in
 
             /* Pop scope */
             scope_stack_pop(scopes);
+            /* The locals registered while the block was emitted end with it (as for loop variables
+             * and match bindings: dropped, not freed) - otherwise they keep hiding outer names */
+            env->symbol_count = block_scope_start;
 
             emit_indent_item(list, indent);
             emit_literal(list, "}\n");
@@ -2741,9 +2754,11 @@ static void build_stmt(WorkList *list, ScopeStack *scopes, ASTNode *stmt, int in
             /* Unsafe blocks transpile to regular C blocks */
             emit_indent_item(list, indent);
             emit_literal(list, "/* unsafe */ {\n");
+            int unsafe_scope_start = env->symbol_count;
             for (int i = 0; i < stmt->as.unsafe_block.count; i++) {
                 build_stmt(list, scopes, stmt->as.unsafe_block.statements[i], indent + 1, env, fn_registry);
             }
+            env->symbol_count = unsafe_scope_start;
             emit_indent_item(list, indent);
             emit_literal(list, "}\n");
             break;
@@ -2885,6 +2900,21 @@ static void build_stmt(WorkList *list, ScopeStack *scopes, ASTNode *stmt, int in
             
         case AST_LET: {
             emit_indent_item(list, indent);
+
+            /* The initialiser is emitted before the new variable exists: while it is built, the
+             * symbol the type checker located at this very `let` must not be found by the lookups
+             * by source position (the initialiser stands after the `let` keyword), so that a name
+             * in it that equals the new variable's still means the outer variable / function. */
+            int let_sym_idx = -1;
+            int let_sym_line = 0;
+            {
+                Symbol *let_sym = env_get_var_visible_at(env, stmt->as.let.name, stmt->line, stmt->column);
+                if (let_sym && stmt->line > 0 && let_sym->def_line == stmt->line && let_sym->def_column == stmt->column) {
+                    let_sym_idx = (int)(let_sym - env->symbols);
+                    let_sym_line = let_sym->def_line;
+                    let_sym->def_line = INT_MAX;
+                }
+            }
             
             /* Handle tuple types - use __auto_type to infer from RHS */
             if (stmt->as.let.var_type == TYPE_TUPLE) {
@@ -3108,6 +3138,10 @@ static void build_stmt(WorkList *list, ScopeStack *scopes, ASTNode *stmt, int in
                 }
             }
             
+            if (let_sym_idx >= 0) {
+                env->symbols[let_sym_idx].def_line = let_sym_line;
+            }
+
             /* Register in environment */
             env_define_var_with_type_info(env, stmt->as.let.name, stmt->as.let.var_type,
                                          stmt->as.let.element_type, NULL, stmt->as.let.is_mut, create_void());
